@@ -27,4 +27,59 @@ impl<I: Iterator<Item = usize>> ShimIterEq for I {
     { self.eq(other) }
 }
 
+
+// ---- filter_map / filter / find / enumerate / flat_map: eager stand-ins with the std meaning ----
+// The closures of /repo passed to these are pure (they only read), so evaluating them eagerly on the whole
+// sequence yields the same elements in the same order as std's lazy adapters.
+pub open spec fn somes<B>(ys: Seq<Option<B>>) -> Seq<B>
+    decreases ys.len()
+{
+    if ys.len() == 0 { Seq::empty() } else {
+        let r = somes(ys.drop_last());
+        match ys.last() { Some(y) => r.push(y), None => r }
+    }
+}
+pub open spec fn keep<A>(xs: Seq<A>, bs: Seq<bool>) -> Seq<A>
+    decreases xs.len()
+{
+    if xs.len() == 0 || bs.len() != xs.len() { Seq::empty() } else {
+        let r = keep(xs.drop_last(), bs.drop_last());
+        if bs.last() { r.push(xs.last()) } else { r }
+    }
+}
+
+pub trait ShimFilterMap: Iterator + Sized {
+    fn shim_filter_map<B, F: FnMut(Self::Item) -> Option<B>>(self, f: F) -> (r: std::vec::IntoIter<B>)
+        requires
+            self.obeys_prophetic_iter_laws(),
+            forall|i: int| 0 <= i < self.remaining().len() ==> f.requires((#[trigger] self.remaining()[i],)),
+        ensures
+            exists|ys: Seq<Option<B>>| #![trigger somes(ys)] ys.len() == self.remaining().len()
+                && (forall|i: int| 0 <= i < ys.len() ==> f.ensures((self.remaining()[i],), #[trigger] ys[i]))
+                && r.remaining() == somes(ys) && r.obeys_prophetic_iter_laws() && r.decrease() is Some;
+}
+impl<I: Iterator> ShimFilterMap for I {
+    #[verifier::external_body]
+    fn shim_filter_map<B, F: FnMut(I::Item) -> Option<B>>(self, f: F) -> (r: std::vec::IntoIter<B>)
+    { self.filter_map(f).collect::<Vec<B>>().into_iter() }
+}
+
+pub trait ShimFind: Iterator + Sized {
+    fn shim_find<P: FnMut(&Self::Item) -> bool>(self, p: P) -> (r: Option<Self::Item>)
+        requires
+            self.obeys_prophetic_iter_laws(),
+            forall|i: int| 0 <= i < self.remaining().len() ==> p.requires((&#[trigger] self.remaining()[i],)),
+        ensures
+            match r {
+                None => forall|i: int| 0 <= i < self.remaining().len() ==> p.ensures((&#[trigger] self.remaining()[i],), false),
+                Some(x) => exists|k: int| 0 <= k < self.remaining().len() && x == #[trigger] self.remaining()[k] && p.ensures((&self.remaining()[k],), true)
+                    && forall|i: int| 0 <= i < k ==> p.ensures((&#[trigger] self.remaining()[i],), false),
+            };
+}
+impl<I: Iterator> ShimFind for I {
+    #[verifier::external_body]
+    fn shim_find<P: FnMut(&I::Item) -> bool>(self, p: P) -> (r: Option<I::Item>)
+    { let mut s = self; s.find(p) }
+}
+
 } // verus!
